@@ -197,7 +197,16 @@ func runOptr(c hx.Config, o *hx.Out) error {
 			continue
 		}
 		// the pointee: an input for the root below the defaults (a default applies to a nil input, not to what a pointer refers to)
+		// (its scalar leaves include floats chosen for equality — NaN, -0, the infinities: identity is a matter of bits)
+		jvalFloats = true
 		pv := under.in(r)
+		jvalFloats = false
+		if under.kind == "any" && r.Chance(35) {
+			pv = hx.Pick(r, ownFloats) // the pointee itself a float leaf: *any holding a NaN / -0 / an infinity
+		}
+		if hasFloatLeaf(pv) {
+			o.Count("optr:pointee-holds-nan-or-signed-zero-or-inf")
+		}
 		inp, ok := pointerTo(under.kind, pv)
 		if !ok {
 			o.Count("optr:pointee-not-of-the-roots-go-type")
@@ -252,4 +261,24 @@ func runOptr(c hx.Config, o *hx.Out) error {
 		}
 	}
 	return nil
+}
+
+func hasFloatLeaf(v any) bool {
+	switch x := v.(type) {
+	case float64:
+		return x != 6.25
+	case []any:
+		for _, e := range x {
+			if hasFloatLeaf(e) {
+				return true
+			}
+		}
+	case map[string]any:
+		for _, e := range x {
+			if hasFloatLeaf(e) {
+				return true
+			}
+		}
+	}
+	return false
 }
